@@ -1691,7 +1691,11 @@ MANIFEST = dict(
     'with sound axioms (a proof is valid for the real functions; a sat is '
     'decided by replay + bounded witness search); n>0, fc>0 assumed; 1-D '
     'arrays of 2, 2-D arrays up to 2x3; dtype/layout/aliasing only through '
-    'concrete probes on sampled inputs; shadowing excluded',
+    'concrete probes on sampled inputs; shadowing excluded'
+    ' Concrete data-representation / scale / boundary probes of the real'
+    ' code (dtype, container and memory-layout variants, argument'
+    ' immutability, magnitudes) accompany the symbolic runs; they are'
+    ' differential runs, not solver verdicts.',
     technique='symbolic execution of real code on numpy object arrays + z3 '
     '(NRA + UF with instantiated axioms) per path; inductive step for setter '
     'histories; counterexample replay on the public API; concrete '
